@@ -245,7 +245,7 @@ Fixpoint xerial_loop (fuel : nat) (data out : bytes) (mx : Z) : res bytes * Z :=
           | Ok (cs, r) =>
               if cs <=? 0 then (io_other, mx)          (* UnsupportedChunkLength *)
               else if Z.of_nat (length r) <? cs
-              then (Panic split_at_panic, mx)          (* split_at: mid > len *)
+              then (io_other, mx)                      (* chunk beyond the data: UnexpectedEOF (was a split_at panic) *)
               else
                 let n := Z.to_nat cs in
                 let c1 := firstn n r in
